@@ -1,7 +1,7 @@
 (* C10 — usage reports reach the owning SMF with the measured values intact. Statements only. *)
 From Coq Require Import String List NArith ZArith Bool.
 From GoUpf Require Import Bytes FlagsGen ConstsGen HandlerGen Pfcp PfcpBase PfcpSess PfcpClose PfcpTable PfcpDelete
-  PfcpStep PfcpProps PfcpCat PfcpUsage PfcpQueue Nlattr RulesGen Flags UsageDecGen UsageDec UsageDecProofs.
+  PfcpStep PfcpProps PfcpCat PfcpUsage PfcpQueue PfcpRef Nlattr RulesGen Flags UsageDecGen UsageDec UsageDecProofs.
 Import ListNotations.
 Local Open Scope N_scope.
 
@@ -95,6 +95,14 @@ Theorem C10_emit_ies_in : forall extra d urrs rs ie,
   exists r, In r rs /\ exists inf, alookup (r_urr r) urrs = Some inf /\ ie = mk_usage_ie inf (ur_seqn ie) (or_trig extra r).
 Proof. exact emit_ies_in. Qed.
 Print Assumptions C10_emit_ies_in.
+
+(* a URR whose removal succeeded and which no returned report names is unknown from then on (fix "a removed URR that no
+   final report names is forgotten at once"): by C10_emit_unknown_no_ie a later report naming it yields no IE *)
+Theorem C10_removed_urr_is_unknown : forall e i c inf,
+  alookup i (s_urrs (c_s c)) = Some inf -> remove_keeps e c i = false ->
+  alookup i (s_urrs (c_s (fst (remove_urr e (Some i) c)))) = None.
+Proof. exact removed_urr_unknown. Qed.
+Print Assumptions C10_removed_urr_is_unknown.
 
 Theorem C10_emit_unknown_no_ie : forall extra d urrs rs urrs' ies u,
   emit extra d urrs rs = (urrs', ies) -> alookup u urrs = None -> ies_for u ies = [] /\ alookup u urrs' = None.
